@@ -7,12 +7,14 @@ cd "$WT" || exit 2
 LOG="$WT/seeded/confirm.log"; : > "$LOG"
 say() { echo "$@" | tee -a "$LOG"; }
 git apply -R --check seeded/patch.diff 2>/dev/null || { git checkout -- . ; git apply seeded/patch.diff || { say "CONFIRM patch does not apply"; exit 2; }; }
-DEMO=numbat/tests/seeded_demo.rs
-[ -f "$DEMO" ] || cp seeded/demo.rs "$DEMO"
-cargo test --offline -p numbat --test seeded_demo $EXTRA >> "$LOG" 2>&1; A=$?
+PKG=numbat; SRC=seeded/demo.rs
+[ -f seeded/demo_cli.rs ] && { PKG=numbat-cli; SRC=seeded/demo_cli.rs; }
+DEMO=$PKG/tests/seeded_demo.rs
+[ -f "$DEMO" ] || cp $SRC "$DEMO"
+cargo test --offline -p $PKG --test seeded_demo $EXTRA >> "$LOG" 2>&1; A=$?
 say "CONFIRM demo-with-change rc=$A (want non-zero)"
 git apply -R seeded/patch.diff
-cargo test --offline -p numbat --test seeded_demo $EXTRA >> "$LOG" 2>&1; B=$?
+cargo test --offline -p $PKG --test seeded_demo $EXTRA >> "$LOG" 2>&1; B=$?
 say "CONFIRM demo-without-change rc=$B (want 0)"
 git apply seeded/patch.diff
 mv "$DEMO" /tmp/$(basename $WT)-demo.rs
